@@ -220,7 +220,8 @@ class Gen:
         if r.random() < self.special_leaf_p:
             if r.random() < 0.5:
                 cols = cols if cols is not None else self._cols()
-                self.ops.append({"k": "leaf", "eng": eng, "cols": sorted(cols), "rows": [], "special": "doomed"})
+                self.ops.append({"k": "leaf", "eng": eng, "cols": sorted(cols), "rows": [],
+                                 "special": "nopayload" if (eng != "sql" and r.random() < 0.3) else "doomed"})
                 self.pool.append(Shadow(cols, eng, nrows=0, leaves={len(self.pool)}))
             else:
                 self.ops.append({"k": "leaf", "eng": eng, "cols": [], "rows": [[]], "special": "identity"})
